@@ -228,6 +228,16 @@ func (f *Formatter) formatArgument(arg *ast.Argument) {
 	f.writeString(arg.Value.String())
 }
 
+// setVariableType records the type a variable is declared with in the request to the service.
+// A variable can be used at several positions of one request, say at an Int and at an Int! one:
+// the non-null type is valid for both, whichever is met last is not
+func setVariableType(res map[string]string, name, typ string) {
+	if old, ok := res[name]; ok && strings.HasSuffix(old, "!") && !strings.HasSuffix(typ, "!") {
+		return
+	}
+	res[name] = typ
+}
+
 // walkDirectiveList collects the variables used in directives of fields and fragments
 // together with the types the directives declare for them
 func (f *Formatter) walkDirectiveList(s ast.SelectionSet, res map[string]string) {
@@ -245,7 +255,7 @@ func (f *Formatter) walkDirectiveList(s ast.SelectionSet, res map[string]string)
 					continue
 				}
 				if ad := def.Arguments.ForName(a.Name); ad != nil {
-					res[a.Value.Raw] = ad.Type.String()
+					setVariableType(res, a.Value.Raw, ad.Type.String())
 				}
 			}
 		}
@@ -293,19 +303,19 @@ func (f *Formatter) walkArgumentList(s ast.SelectionSet) map[string]string {
 				}
 
 				for k, v := range f.walkChildrenArgumentList(typeDef, a.Value.Children) {
-					res[k] = v
+					setVariableType(res, k, v)
 				}
 				continue
 			}
 
 			if a.Value.Kind == ast.Variable {
-				res[a.Value.Raw] = ad.Type.String()
+				setVariableType(res, a.Value.Raw, ad.Type.String())
 			}
 		}
 		if field.SelectionSet != nil {
 			stepRes := f.walkArgumentList(field.SelectionSet)
 			for k, v := range stepRes {
-				res[k] = v
+				setVariableType(res, k, v)
 			}
 		}
 	}
@@ -330,7 +340,7 @@ func (f *Formatter) walkChildrenArgumentList(typeDef *ast.Definition, childs ast
 				continue
 			}
 			for k, v := range f.walkChildrenArgumentList(chTypeDef, ch.Value.Children) {
-				res[k] = v
+				setVariableType(res, k, v)
 			}
 			continue
 		}
@@ -338,13 +348,13 @@ func (f *Formatter) walkChildrenArgumentList(typeDef *ast.Definition, childs ast
 		if ch.Value.Kind == ast.Variable {
 			// child name is empty if it's an array, f.e. hello(arrArg: [$someVariable])
 			if ch.Name == "" {
-				res[ch.Value.Raw] = ch.Value.ExpectedType.String()
+				setVariableType(res, ch.Value.Raw, ch.Value.ExpectedType.String())
 			}
 			ad := typeDef.Fields.ForName(ch.Name)
 			if ad == nil {
 				continue
 			}
-			res[ch.Value.Raw] = ad.Type.String()
+			setVariableType(res, ch.Value.Raw, ad.Type.String())
 		}
 	}
 	return res
